@@ -119,7 +119,21 @@ class SimStreamTransport(asyncio.Transport):
         self.loop.call_soon(self._connection_lost, None)
 
     def abort(self) -> None:
-        self.close()
+        # what the kernel does for SO_LINGER 0 / abort(): bytes not yet delivered are discarded and the peer gets a reset
+        # (an application that reads after the reset gets the error, not what was still buffered)
+        if self._closing:
+            return
+        self._closing = True
+        conn = self.conn
+        conn.net.trace("abort", conn.index, self.side)
+        conn.net.count("abort")
+        pipe = conn.pipe_from(self)
+        pipe.drop_pending()
+        other = conn.other(self)
+        lat = pipe.rng.uniform(pipe.policy.lat_min, pipe.policy.lat_max)
+        if not other._lost:
+            self.loop.call_later(lat, other._connection_lost, ConnectionResetError(104, "Connection reset by peer"))
+        self.loop.call_soon(self._connection_lost, None)
 
     # -- used by the network -------------------------------------------------------------
     def _connection_lost(self, exc: BaseException | None) -> None:
